@@ -346,6 +346,8 @@ def c_search(prop, tier):
     if prop == "C04":
         return run_search_family(prop, tier, prop, stages=iter_model_stages(tier), per_output=iter_trace_stage(prop),
                                  budget_scale=0.6 if tier == "quick" else 1.0)
+    if prop == "C10":
+        return run_search_family(prop, tier, prop, stages=[object_stage(prop, tier)], budget_scale=0.6 if tier == "quick" else 1.0)
     return run_search_family(prop, tier, prop)
 
 
@@ -439,7 +441,22 @@ def c12(prop, tier):
         shutil.rmtree(cfgdir, ignore_errors=True)
 
 
+def c09(prop, tier):
+    q = tier == "quick"
+    gen = ("COMPILE", {"MaxLen": 3 if q else 4, "Shard": vlib.seed() % 2 if q else vlib.seed() % 4, "NShards": 2 if q else 4},
+           "MC_Compile", "compile")
+    return run_search_family(prop, tier, prop, extra_jobs=[gen], stages=[object_stage(prop, tier)], budget_scale=0.1,
+                             rule="TLC enumerates every string of <= MaxLen tokens over a 26-token alphabet of syntax characters plus limit families "
+                                  "(nesting 1..1001, repetition counts, nested repetition, alternation width, class ranges, flags, names); regexp judges "
+                                  "acceptance and error text, coregex must agree on Compile/CompilePOSIX/MustCompile and every accessor; QuoteMeta against "
+                                  "its TLA+ definition; NumSubexp/SubexpNames of the AST universe against NCaps/Names of the specification; RegexObject "
+                                  "transitions (Compile, CompilePOSIX, Marshal) replayed; non-trivial = regexp accepts the string",
+                             assumptions=["package regexp is the judge of which strings are patterns and of error texts (the specification only generates them)",
+                                          "TLC evaluates QuoteMeta / NCaps / Names correctly"])
+
+
 REGISTRY = {
+    "C09": c09,
     "C13": c13,
     "C12": c12,
     "C14": c14,
